@@ -350,15 +350,29 @@ func checkC06(p *Prog, r *Report) {
 	}
 	if f := p.Fn("Agent.replaceRemoteInPairs"); r.Anchor("Agent.replaceRemoteInPairs", f != nil) {
 		has := map[string]bool{}
+		// the replacement pair: the local that holds the result of replacePairRemote
+		repl := p.localByDef(f, func(rhs ast.Expr) bool {
+			c, ok := unparen(rhs).(*ast.CallExpr)
+			return ok && p.CalleeName(c) == "ice.replacePairRemote"
+		})
+		isRepl := func(e ast.Expr) bool {
+			if repl != nil && p.isObj(e, repl) {
+				return true
+			}
+			c, ok := unparen(e).(*ast.CallExpr)
+			return ok && p.CalleeName(c) == "ice.replacePairRemote"
+		}
+		var slot ast.Node
 		walkBody(f, func(n ast.Node) bool {
 			switch x := n.(type) {
 			case *ast.AssignStmt:
-				if len(x.Lhs) == 1 {
+				if len(x.Lhs) == 1 && len(x.Rhs) == 1 {
 					if ix, ok := unparen(x.Lhs[0]).(*ast.IndexExpr); ok {
 						switch {
-						case p.IsField(ix.X, "Agent.checklist") && identName(x.Rhs[0]) == "replacement":
+						case p.IsField(ix.X, "Agent.checklist") && isRepl(x.Rhs[0]):
 							has["slot"] = true
-						case p.IsField(ix.X, "Agent.pairsByID") && p.IsField(ix.Index, "CandidatePair.id") && identName(x.Rhs[0]) == "replacement":
+							slot = x
+						case p.IsField(ix.X, "Agent.pairsByID") && p.IsField(ix.Index, "CandidatePair.id") && isRepl(x.Rhs[0]):
 							has["index"] = true
 						}
 					}
@@ -383,14 +397,15 @@ func checkC06(p *Prog, r *Report) {
 		}
 		// the rewrite applies to pairs whose remote is the superseded candidate
 		guard := false
-		walkBody(f, func(n ast.Node) bool {
-			if is, ok := n.(*ast.IfStmt); ok {
-				if b, ok := unparen(is.Cond).(*ast.BinaryExpr); ok && b.Op == token.EQL && p.IsField(b.X, "CandidatePair.Remote") {
-					guard = true
+		if slot != nil {
+			old := p.paramObj(f, 0)
+			guard = factListHas(p.DominatingFactList(f, slot), func(ft Fact) bool {
+				if ft.Op != "==" || !ft.Val {
+					return false
 				}
-			}
-			return true
-		})
+				return (p.IsField(ft.X, "CandidatePair.Remote") && p.isObj(ft.Y, old)) || (ft.Y != nil && p.IsField(ft.Y, "CandidatePair.Remote") && p.isObj(ft.X, old))
+			})
+		}
 		r.Check(len(missing) == 0 && guard, "replaceRemoteInPairs keeps slot, id, priority and holders", p.Pos(f.Body.Pos()), "same slot, same index entry, old priority, holders retargeted", "missing: "+strings.Join(missing, ", ")+" guard on pair.Remote == old: "+boolStr(guard))
 	}
 	if f := p.Fn("Agent.retargetKnownPairHolders"); r.Anchor("Agent.retargetKnownPairHolders", f != nil) {
